@@ -164,7 +164,7 @@ package nsqd
 //@   ensures[channel-refused] touchCalls == old(touchCalls) + 1 && touchErr != nil ==> clientErr(result1, "E_TOUCH_FAILED")
 //@   ensures[channel-accepted] touchCalls == old(touchCalls) + 1 && touchErr == nil ==> result1 == nil
 //@   ensures[errors] result1 != nil ==> fatalErr(result1, "E_INVALID") || clientErr(result1, "E_TOUCH_FAILED")
-//@   modifies Channel.inFlightMessages, Channel.inFlightPQ, mapstore(map[MessageID]*Message), elems(*Message), Message.index, Message.pri, deref(inFlightPqueue), lastNow, lastPopped, touchCalls, touchChan, touchClient, touchID, touchTimeout, touchErr
+//@   modifies Channel.inFlightMessages, Channel.inFlightPQ, mapstore(map[MessageID]*Message), elems(*Message), Message.index, Message.pri, deref(inFlightPqueue), lastNow, lastPopped, lastPushed, touchCalls, touchChan, touchClient, touchID, touchTimeout, touchErr
 
 // ---- CLS / NOP ------------------------------------------------------------------------------
 //@ func (p *protocolV2) CLS(client *clientV2, params [][]byte) ([]byte, error)
